@@ -13,20 +13,45 @@ import (
 type RefType struct {
 	Scope Scope
 	Name  string
+	// resolving is set while the referenced type is visited: a
+	// reference met again meanwhile belongs to a type which
+	// contains itself.
+	resolving bool
 }
 
 // NewRefType is a contructor for the representation of a type reference to be
 // resolved with a TypeSet.
 func NewRefType(name string, scope Scope) signature.Type {
-	return &RefType{scope, name}
+	return &RefType{Scope: scope, Name: name}
+}
+
+// visit resolves the reference in order to visit the referenced
+// type. It fails on a reference which is already being visited: the
+// definition is recursive and would be followed forever. leave must
+// be called once the visit is over.
+func (r *RefType) visit() (signature.Type, error) {
+	t, err := r.Scope.Search(r.Name)
+	if err != nil {
+		return nil, err
+	}
+	if r.resolving {
+		return nil, fmt.Errorf("recursive type definition: %s", r.Name)
+	}
+	r.resolving = true
+	return t, nil
+}
+
+func (r *RefType) leave() {
+	r.resolving = false
 }
 
 // Signature returns the signature of the referenced type. If the
 // reference can not be resolved, it returns an invalid struct type
 // with a name describing the error.
 func (r *RefType) Signature() string {
-	t, err := r.Scope.Search(r.Name)
+	t, err := r.visit()
 	if err == nil {
+		defer r.leave()
 		return t.Signature()
 	}
 	return signature.NewStructType(err.Error(), nil).Signature()
@@ -113,8 +138,9 @@ func (r *RefType) Reader() signature.TypeReader {
 }
 
 func (r *RefType) Type() reflect.Type {
-	t, err := r.Scope.Search(r.Name)
+	t, err := r.visit()
 	if err == nil {
+		defer r.leave()
 		return t.Type()
 	}
 	return reflect.TypeOf((*error)(nil))
